@@ -116,6 +116,16 @@ def check_object(ctx, obj, version, route, rng, full_lattice=False, type_name=No
         except Exception as e:
             ctx.violation("serialize-raised", "serialize(%r) raised %s" % (kw, type(e).__name__), {"options": kw, "object": base_json, "exception": repr(e)})
             continue
+        if ctx.counters.get("evaluations", 0) % 4 == 0:
+            # histories: the same text is first parsed strictly, with each version named, and as a dict
+            for fn in (lambda: stix2.parse(text, allow_custom=False), lambda: stix2.parse(text, allow_custom=True, version="2.0"),
+                       lambda: stix2.parse(json.loads(text), allow_custom=True, version="2.1")):
+                try:
+                    with warnings.catch_warnings():
+                        warnings.simplefilter("ignore")
+                        fn()
+                except Exception:
+                    pass
         try:
             with warnings.catch_warnings():
                 warnings.simplefilter("ignore")
